@@ -18,7 +18,7 @@ def noop_case(rng):
 
 
 def cases_for(rng, tier):
-    n = 700 if tier == "quick" else 20000
+    n = 600 if tier == "quick" else 20000
     cases = []
     for _ in range(n):
         cases.append({"sb": rng.choice([0, 2, 3]),
@@ -30,6 +30,10 @@ def cases_for(rng, tier):
                                                handles=rng.choice([0.1, 0.25]), resize=False, links=False)})
     for _ in range(400 if tier == "quick" else 10000):
         cases.append({"sb": rng.choice([0, 2, 3]), "ops": histgen.gen_handles(rng, nsess=rng.choice([1, 2, 3]), nops=rng.choice([10, 24, 40]))})
+    # every kind of object as the LAST allocation of the creating session (compound / array / enum / ... datasets, groups, dense groups),
+    # then sessions that allocate for another object (compact -> dense attributes) and grow the last object (seeded change C10-c)
+    for _ in range(400 if tier == "quick" else 10000):
+        cases.append({"sb": rng.choice([0, 2, 3]), "ops": histgen.gen_tail_kind(rng)})
     for _ in range(150 if tier == "quick" else 3000):
         cases.append({"sb": rng.choice([0, 2, 3]), "ops": noop_case(rng), "noop": True})
     return cases
@@ -39,7 +43,7 @@ def run(ctx):
     cases = cases_for(ctx.rng, ctx.tier)
     res = histcheck.run(ctx, cases, "C10", tags=None, unit_modules=["c04unit"],
                         rule_extra="C10 cases: 2-6 open-modify-close sessions (attribute upserts/deletes through OpenDataset, data overwrite of "
-                                   "contiguous datasets, creation attempts; in part of the cases several OpenDataset handles on the same dataset used in turn) with a dump after every session; plus sessions without any successful "
+                                   "contiguous datasets, creation attempts; in part of the cases several OpenDataset handles on the same dataset used in turn) with a dump after every session; datasets of every kind the write API creates (compound, array, enum, opaque, reference, variable-length) incl. histories whose last allocated object is of each kind in turn; plus sessions without any successful "
                                    "modification, for which the file's SHA-256 must not change.")
     # byte identity of no-op sessions
     import vlib, histcheck as hc
